@@ -72,6 +72,8 @@ def raised_in_repo(exc: BaseException) -> bool:
     # walk from the innermost frame outwards; the first frame that belongs
     # either to the harness or to the repo decides
     for fr in reversed(tb):
+        if fr.filename.startswith("<"):
+            continue  # code run by eval/exec (e.g. "<string>") belongs to whoever called it
         fn = os.path.realpath(fr.filename)
         if fn.startswith(os.path.realpath(REPO_SRC)):
             return True
